@@ -20,11 +20,13 @@ _TRUST = ("Trusted: Lean kernel, axioms propext/Classical.choice/Quot.sound; the
 
 REG = {
     "C06": {
-        "module": ["Props.C06"],
-        "suites": [("wire", (8000, 150000))],
+        "module": ["Props.C06", "Props.C06Complete", "Props.C06Relaxed", "Props.C06WireIO", "Props.C06Float"],
+        "suites": [("wire", (8000, 150000)), ("floatconv", (3000, 60000))],
         "rule": _RULE_TYPES + " x values (boundary and out-of-range integers up to 2**70, bool-as-int, NaN/inf/subnormal/tie floats and huge "
                 "ints for float fields, empty and full arrays, multi-byte UTF-8 as str and bytes, omitted fields, shuffled dict order), "
                 "each as explicit dict, as relaxed positional / bare-value form, or with one shape violation; 2-5 values per type"
+                + "; suite floatconv: (width, cast mode, finite float or int) with the number at / next to a representable value, a midpoint between two "
+                "neighbours, the subnormal range, the largest finite value and the overflow threshold, ints up to 10**400 incl. ints that are not doubles"
                 + _RULE_LOOKALIKE + " (steps: serialize plain / relaxed / with a shape violation, deserialize a reference encoding whose value is known, "
                 "deserialize arbitrary bytes); non-trivial = every case; distinct = distinct (type, value, flags)",
         "technique": "Lean 4 theorems over an executable model of the codec (mutual structural induction over all types and values) + "
@@ -33,23 +35,41 @@ REG = {
                       "data, that decoding an encoding returns the value and stops at its end; that the encoding's bit length lies in a length set "
                       "defined by recursion over the type (multiple of the alignment, at most the maximum); that every input serialize accepts "
                       "(cast modes, omitted fields) becomes a valid value and round-trips; saturation/truncation formulas for every width; defaults "
-                      "for omitted fields. The model is tied to _serdes.py by running both on generated (type, value) pairs on every run, and the real "
+                      "for omitted fields; that the length set has no spurious element (C06.length_complete / C06.length_set_exact: for types without "
+                      "delimited members every element is the encoding length of a valid value; C06.length_complete_delimited: behind a delimiter header "
+                      "every announced length is written by some conforming revision; C06.length_complete_reader: for all types every element is the exact "
+                      "number of bits the type's decoder consumes on an accepted representation; C06.bit_length_set_exact ties this to the set denoted by the "
+                      "library's bit_length_set expression); that relaxed input is its explicit form (C06.relaxed_explicit, C06.relaxed_idempotent, "
+                      "C06.relaxed_positional, C06.relaxed_bare) and that relaxed mode is a conservative extension of strict mode (C06.relaxed_conservative); "
+                      "that the codec written as a driver of the two-path _BitWriter / _BitReader model computes exactly the stream encoder / decoder "
+                      "(C06.writer_refines_enc, C06.serialize_bytes, C07.reader_refines_dec, C07.deserialize_bytes, C06.bytes_roundtrip). The model is tied to _serdes.py by running both on generated (type, value) pairs on every run, and the real "
                       "output is compared with an independent reference encoding, the real bit_length_set and the explicit-form bytes.",
         "level_note": _TRUST,
         "partial": [
-            "floats are carried as IEEE bit patterns in the model; numeric float -> pattern conversion (rounding, saturation to +-max, overflow to inf) "
-            "is struct.pack's: checked on every run against an exact-rational round-half-even reference in the oracle, no theorem; NaN payloads are not compared",
-            "relaxed input normalisation (_normalize_relaxed_value) is modelled (Wire.normalize) and compared on every run, and the oracle checks "
-            "relaxed bytes == explicit bytes on the real library; there is no Lean theorem relating normalize to the explicit form",
+            "floats are carried as IEEE bit patterns in the codec model; the numeric conversion number -> pattern is WireFloat.roundBinary / roundInt "
+            "(Model/Float.lean: exact fraction -> binary16/32/64, round half even, saturation to +-max, overflow to +-inf at the IEEE threshold; ints go "
+            "through binary64 first as float(int) does) with theorems C06.float_exact / float_decode_round (exact on representable numbers), float_nearest / "
+            "float_half_ulp (no finite pattern is closer), float_tie_even, float_saturate, float_overflow, float_finite_below, float_sign, float_monotone; "
+            "its equality with struct.pack / _serialize_primitive is by correspondence (suite floatconv: finite floats and ints around every rounding boundary, "
+            "subnormals, overflow thresholds, all widths and cast modes, judged by the exact-rational oracle float_bits); the codec model itself still "
+            "receives the pattern (Inp.flt), i.e. roundBinary is not composed with Wire.coerce inside Lean; NaN payloads and infinities are passed through and not compared",
+            "relaxed input: str/bytes leaves and float-for-int leaves are outside Wire.normalize (they are not touched by _normalize_relaxed_value); "
+            "C06.relaxed_conservative assumes pairwise distinct dict keys (true of every Python dict; the model's dicts are association lists)",
+            "C06.length_complete (encoder side, a VALID value for every element of the length set) is for types without delimited members; with delimited "
+            "members an array of a delimited type has lengths that no single revision of the element type realises, so the general statement is the "
+            "reader-side C06.length_complete_reader plus C06.length_complete_delimited for one delimited object",
             "bool/int fields given as Python floats (round()) are not generated",
             "membership of the length in the REAL bit_length_set is checked by the oracle (min/max, residues mod 8, expansion when small); the theorem "
             "C06.length is about the model's own length predicate HasLen (its equality with the library's BitLengthSet belongs to C02)",
-            "both code paths of _BitWriter/_BitReader are one function in the model: their agreement at every offset is established by correspondence only",
+            "both code paths of _BitWriter/_BitReader: Props/C06BitIO.lean + Props/C06WireIO.lean prove that the codec driven over the two-path byte-buffer "
+            "model (Model/WireIO.lean: write_bits / align_to / finish / read_bits / remaining_bits / bounded_subreader in Python's call order) equals Wire.enc / "
+            "Wire.dec; what remains by correspondence only is the fidelity of Model/BitIO.lean to the private classes (bitio suite) and the call order of "
+            "Model/WireIO.lean (its results are proved equal to the validated Wire.enc / Wire.dec; a trace comparison is not implemented)",
         ],
         "assumptions": [_MODEL],
     },
     "C07": {
-        "module": ["Props.C07"],
+        "module": ["Props.C07", "Props.C06WireIO"],
         "suites": [("wire", (12000, 150000))],
         "rule": _RULE_TYPES + " x byte strings: random bytes (uniform, mostly-zero, constant), a valid representation (reference encoder) with junk "
                 "suffixes, prefixes of valid representations (all prefixes for short ones), 1-2 bit flips, one length prefix / union tag / delimiter "
@@ -70,7 +90,10 @@ REG = {
         "partial": [
             "exception behaviour of CPython itself (RecursionError on very deep types, MemoryError) is outside the model",
             "'no dependence on data outside b' is purity of the Lean function; on the Python side it is observed only through determinism of the differential runs",
-            "both read paths (aligned fast path, bit-wise slow path) are one function in the model: agreement is by correspondence only",
+            "both read paths (aligned fast path, bit-wise slow path): C07.reader_refines_dec / C07.deserialize_bytes (Props/C06WireIO.lean) prove that the "
+            "decoder driven over the two-path _BitReader model (limit logic, remaining_bits check, bounded sub-readers) returns exactly what Wire.dec "
+            "returns, value or error class, for every well-formed type and every reader state satisfying the invariant RInv (start <= offset, limit within "
+            "the data), which the initial reader satisfies and every step preserves; only the fidelity of Model/BitIO.lean to the private class is by correspondence",
         ],
         "assumptions": [_MODEL],
     },
@@ -78,7 +101,7 @@ REG = {
 
 # wire half of C14; the coordinator merges this into the C14 entry (module list, suite list, partial notes)
 C14_WIRE = {
-    "module": ["Props.C14Wire"],
+    "module": ["Props.C14Wire", "Props.C14WireGeneral"],
     "suites": [("wire", (6000, 60000))],
     "rule": "pairs (D, D') of delimited structures with a common extent where one field list (0-4 random fields incl. nested composites, arrays, "
             "padding) is a proper prefix of the other (1-3 more fields), nested 1-3 levels deep as structure field (fields before and after), "
@@ -90,17 +113,18 @@ C14_WIRE = {
             "old -> new, new -> old, each its own data, each step also compared with freshly built uniquely named twins; "
             "distinct = distinct (writer type, reader type, value)",
     "partial": [
-        "wire half: C14.wire is proved for one nesting path (Wire.Ctx: field / variant / fixed and variable array element / sealed or delimited "
-        "composite, any depth; for arrays all elements are of the revised type); two different revised types inside one container follow by "
-        "applying the theorem twice only when they sit on one path - the general multi-hole case is covered by the correspondence only",
-        "stated for D of structure kind; for a union D an appended variant is rejected by an old reader with UnionTagError (never mis-decoded)",
+        "wire half: C14.wire (one nesting path) is generalised by C14.wire_general (Props/C14WireGeneral.lean) to ANY number of revised delimited "
+        "structures at any positions at once, revised members inside revised structures included, and to unions gaining trailing variants "
+        "(relation Wire.Evolves writer reader, adapted value Wire.adapt); not covered: a union LOSING variants (an old reader rejects an unknown tag "
+        "with UnionTagError - C07.rejects_tag - never mis-decodes), and changes of array capacity or primitive types (not allowed by the Specification)",
     ],
     "assumptions": [_MODEL],
     "technique": "Lean 4 theorems over the executable codec model + differential correspondence with pydsdl.serialize/deserialize across revisions + structural adapt oracle",
     "level_text": "For the modelled codec it is proved in Lean 4 that a delimited structure written with field list fs is read with fs++gs (and vice versa) such that "
                   "common fields keep their values, new fields read as defaults, unknown fields are skipped, and the reader ends exactly where the writer's "
                   "representation ends, at any aligned offset with any trailing data, and that this lifts to every nesting position (structure field, union "
-                  "variant, array element, nested sealed/delimited composites, any depth), so everything after the nested object is read correctly. "
+                  "variant, array element, nested sealed/delimited composites, any depth), so everything after the nested object is read correctly; the general form "
+                  "(C14.wire_general) allows any number of revised delimited structures anywhere in the type at once. "
                   "The model is tied to _serdes.py by the wire correspondence.",
     "level_note": _TRUST,
 }
